@@ -236,7 +236,16 @@ def trace_encode(fx, version, level, boosted, mask_in=None, eci=False, sa_info=N
         bpar = _src.all_params(fx.fn('encoder', 'boost_error_level'))
     except Unknown:
         bpar = None
-    if bpar != ['version', 'error', 'segments', 'eci', 'is_sa'] and 'boost_error_level' not in real and boost_error:
+    ref_b = ['version', 'error', 'segments', 'eci', 'is_sa']
+    if bpar is not None and bpar[:5] == ref_b and len(bpar) > 5:
+        # the booster has gained optional parameters: the stand-in (tolerant of parameters handed their default) still answers
+        try:
+            bfn = fx.fn('encoder', 'boost_error_level')
+            if all(p_ in _src.param_defaults(bfn) for p_ in bpar[5:]):
+                bpar = ref_b
+        except Unknown:
+            pass
+    if bpar != ref_b and 'boost_error_level' not in real and boost_error:
         if segments is not None and not isinstance(segments, SegmentsModel):
             raise Unknown(f'boost_error_level has another interface than the rules stand in for: {bpar}')
         cap_tab = ev.module_consts(fx.forest, 'consts').get('SYMBOL_CAPACITY')
